@@ -1007,7 +1007,7 @@ impl PathSeg {
                         }
                     }
                 }
-                0
+                Self::winding_at_nearer_end(start, end, p, sign)
             }
             PathSeg::Cubic(cubic) => {
                 let p1 = cubic.p1;
@@ -1032,8 +1032,24 @@ impl PathSeg {
                         }
                     }
                 }
-                0
+                Self::winding_at_nearer_end(start, end, p, sign)
             }
+        }
+    }
+
+    /// The piece is monotone and the row of `p` lies between its end points, so it crosses
+    /// that row; when the solver returns no root in `[0, 1]` the root was lost to rounding
+    /// just outside the interval, and the crossing is at the end point nearer to the row.
+    fn winding_at_nearer_end(start: Point, end: Point, p: Point, sign: i32) -> i32 {
+        let x = if (p.y - start.y).abs() <= (p.y - end.y).abs() {
+            start.x
+        } else {
+            end.x
+        };
+        if p.x >= x {
+            sign
+        } else {
+            0
         }
     }
 
